@@ -45,6 +45,13 @@ def w_rolling(w, cfg):
         allv, nov = z3.And(*valid), z3.Not(z3.Or(*valid))
         claim = z3.If(allv, out[ii] == vsum, z3.If(nov, out[ii] == ndr, z3.Or(out[ii] == ndr, out[ii] == vsum)))
         w.discharge(f"rolling_sum.value[{ii}]", assume, claim, concretize=conc, sample=(ii == n - 1))
+        # data flow: the term computed for this window mentions only the window's own cells (and nodata). A value carried over from
+        # earlier cells (running sums: add the entering cell, subtract the leaving one) is the same number in exact arithmetic but
+        # not in floating point, where a large cell that has left the window keeps absorbing the small ones
+        names = {str(c) for c in cells} | {"nodata"}
+        outside = sorted(str(v) for v in C.free_vars(V.to_z3(out[ii])) if str(v) not in names)
+        w.discharge(f"rolling_sum.window_depends_only_on_its_own_cells[{ii}]", assume, z3.BoolVal(not outside),
+                    concretize=lambda m, ii=ii, outside=outside: {"kind": "rolling_absorb", "window": win, "n": n, "position": ii, "flows_from": outside})
     for ob in it.obligations:
         w.discharge(f"rolling_sum.{ob.kind}@{ob.where}", assume, ob.claim, guard=ob.guard, concretize=conc)
     w.vacuity("rolling_sum.assumptions", assume)
@@ -276,6 +283,8 @@ def replay_candidate(chk, c):
     elif k == "rolling_pair":
         r = chk.replayer.call("c17_rolling_pair", vals=inp["vals"], miss=inp["miss"], window=inp["window"],
                               nd1=inp["nd1"], nd2=inp["nd2"])
+    elif k == "rolling_absorb":
+        r = chk.replayer.call("c17_rolling_absorb", window=inp["window"], n=inp["n"])
     elif k == "accessor":
         r = chk.replayer.call("c17_accessor", **{a: b for a, b in inp.items() if a != "kind"})
     else:
